@@ -589,7 +589,7 @@ namespace
     value select_array_scalar(runtime& runtime, value::cref left, value::cref right)
     {
         auto arr = left.data<d_array>()->value();
-        auto index = static_cast<int>(std::round(right.data<d_scalar, float>()));
+        auto index = sqf::runtime::util::round_to<int>(right.data<d_scalar, float>());
 
         if (static_cast<int>(arr.size()) < index || index < 0)
         {
@@ -642,7 +642,7 @@ namespace
             runtime.__logmsg(err::ExpectedArrayTypeMissmatch(runtime.context_active().current_frame().diag_info_from_position(), 1, t_scalar(), arr[0].type()));
             return {};
         }
-        int start = static_cast<int>(std::round(arr[0].data<d_scalar, float>()));
+        int start = sqf::runtime::util::round_to<int>(arr[0].data<d_scalar, float>());
         if (start < 0)
         {
             runtime.__logmsg(err::NegativeIndexWeak(runtime.context_active().current_frame().diag_info_from_position()));
@@ -662,7 +662,7 @@ namespace
                 runtime.__logmsg(err::ExpectedArrayTypeMissmatch(runtime.context_active().current_frame().diag_info_from_position(), 1, t_scalar(), arr[1].type()));
                 return {};
             }
-            int length = static_cast<int>(std::round(arr[1].data<d_scalar, float>()));
+            int length = sqf::runtime::util::round_to<int>(arr[1].data<d_scalar, float>());
             if (length < 0)
             {
                 runtime.__logmsg(err::NegativeIndexWeak(runtime.context_active().current_frame().diag_info_from_position()));
@@ -670,7 +670,7 @@ namespace
                 return value(std::make_shared<d_array>());
             }
 
-            return value(std::vector<value>(vec.begin() + start, start + length > static_cast<int>(vec.size()) ? vec.end() : vec.begin() + start + length));
+            return value(std::vector<value>(vec.begin() + start, length > static_cast<int>(vec.size()) - start ? vec.end() : vec.begin() + start + length));
         }
         else
         {
@@ -827,7 +827,13 @@ namespace
             runtime.__logmsg(err::NegativeSize(runtime.context_active().current_frame().diag_info_from_position()));
             return {};
         }
-        auto i = right.data<d_scalar, size_t>();
+        // arrays are limited to 9,999,999 elements (and a number beyond size_t cannot be converted at all)
+        if (!(right.data<d_scalar, float>() <= 9999999))
+        {
+            runtime.__logmsg(err::IndexOutOfRange(runtime.context_active().current_frame().diag_info_from_position(), 9999999, sqf::runtime::util::round_to<size_t>(right.data<d_scalar, float>())));
+            return {};
+        }
+        auto i = sqf::runtime::util::round_to<size_t>(right.data<d_scalar, float>());
         left.data<d_array>()->resize(i);
         return {};
     }
@@ -837,8 +843,8 @@ namespace
         {
             return {};
         }
-        auto from = (int)std::roundf((*right.data<d_array>())[0].data<d_scalar, float>());
-        auto to = (int)std::roundf((*right.data<d_array>())[1].data<d_scalar, float>());
+        auto from = sqf::runtime::util::round_to<int>((*right.data<d_array>())[0].data<d_scalar, float>());
+        auto to = sqf::runtime::util::round_to<int>((*right.data<d_array>())[1].data<d_scalar, float>());
 
         auto arr = left.data<d_array>();
         if (from > to)
